@@ -28,20 +28,88 @@ pub open spec fn ceil_pages(size: int) -> int { (size + ps() - 1) / ps() }
 pub enum Error { Mmap(i32), UnexpectedError }
 pub type Result<T> = core::result::Result<T, Error>;
 
-/// a plain mmap of `size` bytes of the grant device at file offset `index`
-pub struct MmapUnix { pub addr: Ptr, pub size: usize, pub gindex: Ghost<u64> }
-impl MmapUnix {
-    #[verifier::external_body]
-    pub fn new(size: usize, prot: i32, flags: i32, fd: i32, f_offset: u64) -> (r: Result<MmapUnix>)
-        ensures r matches Ok(m) ==> m.size == size && m.addr.wf() && m.addr.valid_for(size as int) && m.addr.live@ && m.addr.lo@ == m.addr.a && m.gindex@ == f_offset
-    { unimplemented!() }
-    pub fn addr(&self) -> (r: Ptr) ensures r == self.addr { self.addr }
-}
-/// std::mem::drop of the mapping (MmapUnix::drop munmaps addr/size -- K-region's subject)
+// ------------------------------------------------------------------ MmapUnix: the owner of a plain mmap (C12)
+/// libc::mmap(NULL, size, prot, flags, fd, offset) (trusted boundary): MAP_FAILED, or a fresh live
+/// mapping of exactly `size` bytes whose first byte is the returned address
+pub uninterp spec fn map_failed(p: Ptr) -> bool;
+pub uninterp spec fn mapped_offset(p: Ptr) -> u64;
 #[verifier::external_body]
-pub fn drop(m: MmapUnix) { unimplemented!() }
+pub fn libc_mmap(size: usize, prot: i32, flags: i32, fd: i32, off: u64) -> (r: Ptr)
+    ensures !map_failed(r) ==> r.wf() && r.lo@ == r.a && r.hi@ == r.a + size && r.live@ && mapped_offset(r) == off,
+{ unimplemented!() }
+#[verifier::external_body]
+pub fn is_map_failed(p: Ptr) -> (b: bool) ensures b == map_failed(p) { unimplemented!() }
+/// libc::munmap(addr, len).  The precondition is C12's "unmapped exactly": the call must give back
+/// exactly one whole mapping made by libc_mmap -- from its first byte, over its whole length (a shorter
+/// length leaks the tail, a shifted address leaks the head and unmaps somebody else's pages).
+#[verifier::external_body]
+pub fn libc_munmap(p: Ptr, len: usize)
+    requires
+        p.lo@ == p.a, // [C12]
+        p.hi@ == p.a + len, // [C12]
+        p.live@, // [C12]
+{ unimplemented!() }
+#[verifier::external_body]
+pub fn last_os_error() -> (r: i32) { unimplemented!() }
 
-pub struct FileOffset { pub fd: i32 }
+//@item src/mmap/xen.rs :: - :: struct MmapUnix :: pubfields
+//@sub ^struct MmapUnix => pub struct MmapUnix
+//@enditem
+impl MmapUnix {
+    /// the owner invariant: this value holds exactly one whole live mapping (what Drop gives back)
+    pub open spec fn owns(&self) -> bool {
+        self.addr.wf() && self.addr.lo@ == self.addr.a && self.addr.hi@ == self.addr.a + self.size && self.addr.live@
+    }
+//@fn src/mmap/xen.rs :: impl MmapUnix :: new :: tags=C12,C17,C07
+//@sub libc::mmap\(null_mut\(\), => libc_mmap(
+//@sub f_offset as libc::off_t => f_offset
+//@sub addr == libc::MAP_FAILED => is_map_failed(addr)
+//@sub io::Error::last_os_error\(\) => last_os_error()
+//@sub addr as Ptr => addr
+//@spec
+    ensures r matches Ok(m) ==> m.owns() && m.size == size && mapped_offset(m.addr) == f_offset, // [C12,C17]
+//@end
+//@endfn
+//@fn src/mmap/xen.rs :: impl MmapUnix :: addr :: tags=C12,C17
+//@spec
+    ensures r == self.addr,
+//@end
+//@endfn
+}
+impl MmapUnix {
+//@fn src/mmap/xen.rs :: impl Drop for MmapUnix :: drop :: tags=C12,C07 :: id=xen::MmapUnix::drop
+//@sub libc::munmap\(self\.addr as \*mut libc::c_void, => libc_munmap(self.addr,
+//@spec
+    requires old(self).owns(), // the invariant every holder must have kept
+//@end
+//@endfn
+}
+/// std::mem::drop of the mapping: runs the destructor above, so the value must still satisfy the
+/// owner invariant at that point
+pub fn drop(m: MmapUnix)
+    requires m.owns(), // [C12]
+{ let mut m = m; m.drop(); }
+
+// MmapXenUnix: plain Unix mapping used when neither foreign nor grant is requested
+pub struct MmapRange { pub size: usize, pub file_offset: Option<FileOffset>, pub prot: Option<i32>, pub flags: Option<i32> }
+#[verifier::external_body]
+pub fn check_file_offset(f: &FileOffset, size: usize) -> (r: Result<()>) { unimplemented!() }
+pub struct File { pub fd: i32 }
+impl File { pub fn as_raw_fd(&self) -> i32 { self.fd } }
+pub struct MmapXenUnix(pub MmapUnix); // declaration (tuple struct, as in the source)
+impl MmapXenUnix {
+//@fn src/mmap/xen.rs :: impl MmapXenUnix :: new :: tags=C12,C07
+//@spec
+    ensures r matches Ok(m) ==> m.0.owns() && m.0.size == range.size, // [C12]
+//@end
+//@endfn
+}
+
+pub struct FileOffset { pub fd: i32, pub f: File, pub start: u64 }
+impl FileOffset {
+    pub fn file(&self) -> (r: &File) ensures r.fd == self.f.fd { &self.f }
+    pub fn start(&self) -> (r: u64) ensures r == self.start { self.start }
+}
 //@item src/mmap/xen.rs :: - :: struct MmapXenGrant :: pubfields
 //@sub ^struct MmapXenGrant => pub struct MmapXenGrant
 //@enditem
@@ -65,7 +133,7 @@ impl MmapXenGrant {
 //@spec
     requires size + ps() <= usize::MAX,
     ensures r matches Ok(p) ==> p.0.size == ceil_pages(size as int) * ps() && p.0.size >= size
-        && p.0.addr.wf() && p.0.addr.valid_for(p.0.size as int) && p.0.addr.live@ && p.0.addr.lo@ == p.0.addr.a
+        && p.0.owns() && p.0.addr.valid_for(p.0.size as int)
         && window_count(p.1) == ceil_pages(size as int) && window_base(p.1) == addr.0, // [C17]
 //@end
 //@endfn
@@ -73,6 +141,7 @@ impl MmapXenGrant {
 //@fn src/mmap/xen.rs :: impl MmapXenGrant :: unmap_range :: tags=C17,C07
 //@spec
     requires size + ps() <= usize::MAX, window_count(index) == ceil_pages(size as int), ceil_pages(size as int) <= u32::MAX, // [C17]
+        unix_mmap.owns(), // [C12]
 //@end
 //@endfn
 }
@@ -101,7 +170,7 @@ impl MmapXenSlice {
     /// what a slice must remember to be able to give its window back: the window it holds was granted
     /// for exactly ceil(size / page) pages under `index`
     pub open spec fn inv(&self) -> bool {
-        self.unix_mmap is Some ==> (self.grant is Some && self.size + ps() <= usize::MAX
+        self.unix_mmap is Some ==> (self.grant is Some && self.unix_mmap.unwrap().owns() && self.size + ps() <= usize::MAX
             && window_count(self.index) == ceil_pages(self.size as int) && ceil_pages(self.size as int) <= u32::MAX)
     }
 //@fn src/mmap/xen.rs :: impl MmapXenSlice :: raw :: tags=C17
